@@ -76,9 +76,8 @@ func Discipline(k stdh.Kind, plan stdgen.Plan, o Opts) (stdgen.Plan, bool) {
 			plan.DstStep = 1 << 16
 		}
 	}
-	if plan.WorkMode == 0 || plan.WorkMode == 1 {
-		plan.WorkMode = 4
-	}
+	// (S2 - work buffer length known too late - is fixed in the tree: the work buffer keeps the drawn mode, i.e.
+	// usually exactly workbuf_len().min_incl, re-queried before every call)
 	return plan, true
 }
 
